@@ -1222,7 +1222,7 @@ def integration_kkt(tier="quick", seed=0, only=None):
             if res.status == SolverStatus.Optimal:
                 optimal += 1
                 for lab, data in kkt_failures(problem, res, params):
-                    failures.append(dict(label=f"C01:integration_solver:{name}:variant{vi}:optimal_violates_" + lab, input=inp, observed=repr(data)[:200]))
+                    failures.append(dict(label=f"C01:integration_solver:{name}:optimal_violates_" + lab, input=inp, observed=repr(data)[:200]))
     seen, uniq = set(), []
     for f in failures:
         if f["label"] not in seen:
